@@ -7,6 +7,8 @@ import (
 	"runtime"
 	"strconv"
 	"sync"
+	"sync/atomic"
+	"time"
 
 	"github.com/db47h/decimal"
 
@@ -120,8 +122,12 @@ func (m *machine) runPar(s M, enc *json.Encoder) {
 			}
 		}(gi, steps)
 	}
+	// the watchdog covers the block as a whole: a goroutine that never returns (a defect can make Sqrt's correction loop
+	// endless) must not void the events recorded before the block
+	atomic.StoreInt64(&heartbeat, time.Now().UnixNano())
 	close(start)
 	wg.Wait()
+	atomic.StoreInt64(&heartbeat, 0)
 
 	enc.Encode(M{"op": "ParBegin", "out": "ok", "k": len(gs), "post": M{}, "dg": M{}})
 	for gi := range evs {
